@@ -27,12 +27,14 @@ def harnesses(tier):
     go = d['GET_OBJECT']
     shapes = []
     for ns, e0, e1, e2 in layouts:
-        wit = ['witness: no local binding'] + (['witness: local binding exists'] if e0 + e1 + e2 else [])
+        wit = ['witness: no local binding', 'witness: global found'] + (['witness: local binding exists'] if e0 + e1 + e2 else [])
         base = dict(d, NS=ns, E0=e0, E1=e1, E2=e2)
         tag = 'scopes=%d,entries=%d+%d+%d' % (ns, e0, e1, e2)
         shapes.append(dict(base, HK=0, _tag=tag + ',hint=none', _witness=tuple(wit)))
         for low in (0, 5, 0x0FFFFFFF):
             shapes.append(dict(base, HK=1, HLOW=low, _tag=tag + ',hint=nonlocal(%#x)' % low, _witness=tuple(wit)))
+        for low in (1, 7):         # a bare function-table slot (the function tail stores the slot without flag bits)
+            shapes.append(dict(base, HK=3, HLOW=low, _tag=tag + ',hint=function slot(%d)' % low, _witness=tuple(wit)))
         for hd in list(range(ns)) + [ns, 0xFFF]:
             for hi in (0, 1, 2, 3, 0xFFFF):
                 shapes.append(dict(base, HK=2, HD=hd, HI=hi, _tag=tag + ',hint=local(depth=%d,slot=%d)' % (hd, hi), _witness=tuple(wit)))
